@@ -18,7 +18,7 @@ FUNCTIONS = ["ak.cli_tools.ArgParser.__init__", "ak.cli_tools.ArgParser._init_mu
              "ak.cli_tools.AkArgumentParser.register_dependent", "ak.cli_tools.AkArgumentParser.add_argument"]
 BOUNDS = {
     "quick": {"commands": "N = 3 and N = 4 with <= 1 internal set: every parent declaration over earlier commands (2^(N(N-1)/2) graphs), every choice of internal '!' sets with at least one real command",
-              "options": "one option per command parser + one on the ArgParser + the standard -v/--color/--no-color", "argv": "[cmd, --opt] for every pair, [--opt] (default command), standard options"},
+              "options": "one option per command parser + one on the ArgParser + the standard -v/--color/--no-color", "argv": "[cmd, --opt] for every pair, [--opt] (default command), option values equal to command / option-set names, standard options"},
     "thorough": {"commands": "N <= 5 (1024 graphs x internal-set choices, sharded by the parents of the last command)", "options": "as quick", "argv": "as quick"},
 }
 OUTSIDE = ["option kinds other than store_true flags", "abbreviated long options (argparse prefix matching)", "N > 5 commands"]
@@ -70,6 +70,7 @@ def _run(n: int, edges: List[List[bool]], internal: List[bool], spaces: bool, sw
         p.add_argument("--glob", action="store_true")
         real = [k for k in range(n) if not internal[k]]
         default = real[0]
+        p.get_cmd_parser(names[default]).add_argument("--val")
 
         def parse(argv):
             try:
@@ -119,6 +120,12 @@ def _run(n: int, edges: List[List[bool]], internal: List[bool], spaces: bool, sw
         r = parse([])
         if isinstance(r, tuple) or r.command != names[default]:
             raise Violation(f"default-command :: {descr}: [] gives {r}")
+        # only the FIRST argument decides: a later token that happens to be a command (or option set) name is a value
+        for k in range(n):
+            for argv in (["--val", names[k]], [f"--o{default}", "--val", names[k]], [f"--val={names[k]}", "-v"]):
+                r = parse(argv)
+                if isinstance(r, tuple) or r.command != names[default] or r.val != names[k]:
+                    raise Violation(f"default-command :: {descr}: {argv} must be parsed as the default command c{default} with val={names[k]!r}, got {r}")
 
 
 def h_graph(e10: bool, e20: bool, e21: bool, e30: bool, e31: bool, e32: bool, e40: bool, e41: bool, e42: bool, e43: bool,
